@@ -32,10 +32,6 @@ PANIC_CALLS = ("unwrap", "expect", "panic", "panic_fmt", "unreachable", "unwrap_
 def tabulated(short, file, kind):
     if file.endswith("prefix.rs") and kind == "call:unwrap" and (short.endswith("from_repr_len") or short.endswith("longest_common_prefix")):
         return "J-valid-input: X::new(addr, len).unwrap() — len <= width is the validity precondition of the property (min of two valid lengths for the common prefix)"
-    if short == "<Table as AsRef>::as_ref" and kind == "call:unwrap":
-        return "J-nonnull-cell: UnsafeCell::get() is never null"
-    if short == "Table::get_mut" and kind in ("call:unwrap", "call:panic_fmt"):
-        return "J-nonnull-cell / J-index-closed: pointer from UnsafeCell::get(); explicit bounds check on an index taken from a link / stack / view position (R20.4)"
     if short == "Prefix::is_bit_set" and kind.startswith("assert:Overflow"):
         return "J-type-range: 1u32 + (u8 as u32) (C17 R17.2)"
     if file.endswith("prefix.rs") and kind.startswith("assert:"):
@@ -249,6 +245,14 @@ def run_config(ctx, rep, cfg, F):
         for kind, line in sites:
             n_sites += 1
             reason = tabulated(base, f["file"], kind)
+            on_table = bool(f.get("impl")) and F.adt_of(f["impl_self_ty"]) == C.TABLE
+            callees = [(c_.get("callee") or "") for c_ in m["calls"]]
+            if reason is None and on_table and kind == "call:unwrap" and any("ptr::" in c_ and c_.rsplit("::", 1)[-1] in ("as_ref", "as_mut") for c_ in callees) \
+                    and any(c_.rsplit("::", 1)[-1] in ("get", "as_ptr", "as_mut_ptr") for c_ in callees):
+                reason = "J-nonnull-cell: <ptr>.as_ref()/as_mut().unwrap() on a pointer obtained from UnsafeCell::get() / Vec::as_ptr(): never null"
+            if reason is None and on_table and kind in ("call:panic_fmt", "call:panic", "call:assert_failed") and f.get("unsafe") \
+                    and F.types[f["output"]]["t"] == "ref" and F.adt_of(f["output"]) == C.NODE:
+                reason = "J-index-closed: the explicit bounds check of the arena's unsafe element accessor (definition pinned by C14 R14.8); indices come from links / stacks / view positions, the arena never shrinks under them (R20.4)"
             if reason is None and kind in ("assert:Misaligned", "assert:NullDeref"):
                 # debug-build checks on `*ptr`: cannot fire when every raw pointer of the function derives from a reference
                 # (UnsafeCell::get / as_ptr / add): no integer-to-pointer cast, no transmute outside macro expansions
